@@ -72,7 +72,94 @@ pub fn c01_node_case(ctx: &Ctx, c: &C01Node) -> Vec<Viol> {
     out
 }
 
+/// Messages that carry no proof of key possession at all: a bare type byte followed by a well-formed payload /
+/// routing announcement / keepalive / close, i.e. exactly what a plain-transport peer would send. From a sender
+/// that has not completed a handshake (unknown, or with a handshake in flight in either role) and from the
+/// address of an encrypted peer they must neither reach the interface nor change routes, peers or handshakes.
+#[derive(Clone, Debug, Serialize, Deserialize)]
+pub struct C01Plain {
+    pub state: RState,
+    /// 0 data (well-formed Ethernet frame), 1 node information with claims, 2 keepalive, 3 close, 4..: that type byte + frame
+    pub msg: u8,
+    /// 0 natural source of the state, 1 stranger
+    pub src: u8,
+    pub stale: u8,
+}
+
+pub fn c01_plain_case(ctx: &Ctx, c: &C01Plain) -> Vec<Viol> {
+    ctx.eval();
+    let cj = || json!({"kind": "c01-plain", "case": c});
+    let mut out = vec![];
+    let mut lab = Lab::build(c.state);
+    let frame = eth_frame([2, 0, 0, 0, 0, 9], [2, 0x55, 0, 0, 0, 7], None, b"unauthenticated payload");
+    let mut bytes = vec![c.msg];
+    match c.msg {
+        1 => {
+            let d = crate::props::c16::NiDesc {
+                node_id: [0x5e; 16],
+                peers: vec![(Some([9; 16]), vec!["10.9.9.9:3210".into()])],
+                claims: vec![(vec![2, 0x55, 0, 0, 0, 0], 16), (vec![10, 66, 0, 0], 16)],
+                peer_timeout: Some(300),
+                addrs: vec!["10.9.9.1:3210".into()],
+                unknown: vec![],
+            };
+            bytes.extend(crate::props::c16::ref_encode_nodeinfo(&d, false));
+        }
+        2 | 3 => {}
+        _ => bytes.extend_from_slice(&frame),
+    }
+    let src = if c.src == 0 { lab.natural_source() } else { lab.stranger };
+    let stranger = lab.stranger;
+    lab.sim.deliver_to(T, stranger, crate::props::c08::stale_bytes(c.stale));
+    let before = lab.observe();
+    lab.sim.deliver_to(T, src, bytes.clone());
+    let after = lab.observe();
+    if let Some((_, p, _)) = lab.sim.panics.first() {
+        out.push(Viol::new(format!("node-{}", p.sig()), format!("unauthenticated message made the node panic: {}", p.msg), cj()));
+        return out;
+    }
+    if !lab.sim.take_iface(T).is_empty() {
+        out.push(Viol::new(
+            "payload-accepted-without-proof-of-key",
+            format!("state {:?}: a cleartext message (type {}) from {} was written to the interface although its sender never completed a handshake / the connection is encrypted", c.state, c.msg, src),
+            cj(),
+        ));
+    }
+    if before != after {
+        out.push(Viol::new(
+            "unauthenticated-message-changes-node",
+            format!("state {:?}: cleartext message type {} from {} changed the node or was answered\n before: {}\n after: {}", c.state, c.msg, src, before, after),
+            cj(),
+        ));
+    }
+    if out.is_empty() {
+        if let Err(e) = lab.finish_and_probe() {
+            out.push(Viol::new("handshake-in-progress-broken-at-node", format!("state {:?} after a cleartext message: {}", c.state, e), cj()));
+        }
+    }
+    ctx.nontrivial(&("plain", c.state, c.msg, c.src, c.stale));
+    out
+}
+
 pub fn c01_node(ctx: &Ctx) {
+    {
+        let states = [RState::Unknown, RState::PendingInitiator, RState::PendingResponder, RState::EstLinger, RState::EstNoLinger, RState::EstResponder];
+        let mut cases = vec![];
+        for st in states {
+            for msg in [0u8, 1, 2, 3, 4, 0x10] {
+                for src in 0..2u8 {
+                    for stale in 0..4u8 {
+                        cases.push(C01Plain { state: st, msg, src, stale });
+                    }
+                }
+            }
+        }
+        ctx.par_items(&cases, |_, c| {
+            let v = c01_plain_case(ctx, c);
+            ctx.report(v);
+        });
+        ctx.subspace("node level: cleartext data / node-info / keepalive / close messages (no proof of key) x 6 receiver states x 2 sources x 4 stale-buffer patterns", cases.len() as u64, true);
+    }
     let n: u32 = ctx.tier.pick(1_500, 12_000);
     let states = [RState::Unknown, RState::PendingInitiator, RState::PendingResponder, RState::EstLinger, RState::EstNoLinger, RState::EstResponder];
     ctx.proptest(
@@ -1031,6 +1118,7 @@ pub fn c12_node(ctx: &Ctx) {
 pub fn replay(ctx: &Ctx, case: &Value) {
     let v = match case["kind"].as_str() {
         Some("c01-node") => serde_json::from_value::<C01Node>(case["case"].clone()).map(|c| c01_node_case(ctx, &c)).unwrap_or_default(),
+        Some("c01-plain") => serde_json::from_value::<C01Plain>(case["case"].clone()).map(|c| c01_plain_case(ctx, &c)).unwrap_or_default(),
         Some("c02-node") => serde_json::from_value::<C02Node>(case["case"].clone()).map(|c| c02_node_case(ctx, &c)).unwrap_or_default(),
         Some("c03-node") => c03_node_case(ctx, case["k"].as_u64().unwrap_or(0) as u32, case["newer_between"].as_bool().unwrap_or(false), case["receiver_is_initiator"].as_bool().unwrap_or(false)),
         Some("c05-node") => serde_json::from_value::<C05Node>(case["case"].clone()).map(|c| c05_node_case(ctx, &c)).unwrap_or_default(),
